@@ -33,23 +33,26 @@ contract(f"{OPS}/ws2dpgu.py::ws2dpgu", variant="rel", fmodel="U",
     options={"rel_vary": ["y", "nodata"]}, call_variant={"ws2d": "U"}, props=("C02",))
 
 REL = [f"{OPS}/ws2dgu.py::ws2dgu@rel", f"{OPS}/ws2dpgu.py::ws2dpgu@rel"]
-# robust=True is registered (variant rel_robust) but NOT claimed: with lockstep unrolling of the four re-weighting rounds, on-demand
-# pairing of the arrays handed to np.median / np.max and argument-wise congruence the first two rounds go through, the third (the
-# single-lambda scan over np.array([robust_gcv[1][1]])) still loses the lockstep (> 60 open similarity queries).  The robust branch
-# stays with the bounded stand-in (standin/c02.py, standin/c05.py; DESIGN.md section 0.2).
+# robust=True is registered (second variant of the loop below) but NOT claimed by any check.  State at the end of the build: with
+# lockstep unrolling of the four re-weighting rounds (and of the single-lambda scans), on-demand pairing of the arrays handed to
+# np.median / np.max and argument-wise congruence, the robust variant of ws2dwcv discharged all 65 path pairs on the unchanged tree in
+# an ad-hoc dev_run (about 30 min of generation); its mutation self-test (zero-fill removed) did not finish in the time left, so it
+# is not registered, not even in the thorough tier.  The robust variant of ws2dwcvp stops with `unbound name ww` (weights first
+# defined inside the ten-pass envelope loop, which the lockstep rule cuts instead of unrolling).  The robust branch stays with the
+# bounded stand-in (standin/c02.py, standin/c05.py; DESIGN.md section 0.2).
 for rb, tag in (("const(False)", "rel"), ("const(True)", "rel_robust")):
     contract(f"{OPS}/ws2dwcv.py::ws2dwcv", variant=tag, fmodel="U",
         params={"y": "real[N]", "nodata": "real", "llas": "real[M]", "robust": rb, "out": "i2[N]", "lopt": "real[1]"}, modifies=["out", "lopt"],
         requires=REQ,
         ensures={"same_band_and_lambda": "implies(n_1 > 4, forall(k, 0, N, out_1[k] == out_2[k]) and same(lopt_1[0], lopt_2[0]))",
                  "same_branch": "(n_1 > 4) == (n_2 > 4)"},
-        options={"rel_vary": ["y", "nodata"], "rel_lockstep": rb == "const(True)"}, call_variant={"ws2d": "U"}, props=("C02",))
+        options={"rel_vary": ["y", "nodata"], "rel_lockstep": rb == "const(True)", "rel_max_open": 600, "gen_budget_s": 3600}, call_variant={"ws2d": "U"}, props=("C02",))
     contract(f"{OPS}/ws2dwcvp.py::ws2dwcvp", variant=tag, fmodel="U",
         params={"y": "real[N]", "nodata": "real", "p": "real", "llas": "real[M]", "robust": rb, "out": "i2[N]", "lopt": "real[1]"}, modifies=["out", "lopt"],
         requires=REQ,
         ensures={"same_band_and_lambda": "implies(n_1 > 4, forall(k, 0, N, out_1[k] == out_2[k]) and same(lopt_1[0], lopt_2[0]))",
                  "same_branch": "(n_1 > 4) == (n_2 > 4)"},
-        options={"rel_vary": ["y", "nodata"]}, call_variant={"ws2d": "U"}, props=("C02",))
+        options={"rel_vary": ["y", "nodata"], "rel_lockstep": rb == "const(True)", "rel_max_open": 600, "gen_budget_s": 3600}, call_variant={"ws2d": "U"}, props=("C02",))
     REL += [f"{OPS}/ws2dwcv.py::ws2dwcv@{tag}", f"{OPS}/ws2dwcvp.py::ws2dwcvp@{tag}"]
 
 
